@@ -134,7 +134,8 @@ class C02Partition(Monitor):
         P = float(w[2])
         method = int(self.irr.irrigation_method)
         irr = float(f[FX["IrrDay"]]) if (post.gs and method != 4) else 0.0
-        eff = float(self.irr.AppEff) / 100.0
+        # the efficiency the USER configured (a constructor that rewrites it must not hide a mismatch)
+        eff = float(((ctx.spec.get("irr") or {}).get("kw") or {}).get("AppEff", self.irr.AppEff)) / 100.0
         applied = P + irr * eff
         infl = float(f[FX["Infl"]])
         ro = float(f[FX["Runoff"]])
